@@ -35,7 +35,7 @@ def _create_url_regex():
             _claim("channel", "@"),
             _claim("stream")
         ) +
-        '$'
+        r'\Z'
     )
 
 
